@@ -18,6 +18,7 @@ import corecheck as cc
 import tlc
 from checklib import Ctx
 
+LEVEL = "fault_enumeration"
 FORMULAS = ["NoStrandedQuiescent", "EventuallyFinal", "FollowsEdge", "FinalAbsorbing"]
 REQUEUE = {"rerouted", "retry", "killed", "concurrency_controlled", "pending_recovery", "running_recovery"}
 
